@@ -226,6 +226,47 @@ def run(tier="quick", replay=None):
             later = [b2 for b2, t2 in calls if t2["callee"] == t["callee"] and b2 != bb and b2 in f.reachable(bb)]
             exprs.setdefault(name, []).append((bb, e, bool(later)))
         sites[f.path] = {"fn": f, "flow": fl, "exprs": exprs, "steps": steps}
+    # shared derivation helpers: functions that call the setters with arguments built from their OWN parameters
+    # (no detect_modern inside).  Each caller that owns a detect_modern result becomes a site whose expressions
+    # are the helper's with the parameters replaced by the caller's argument expressions.
+    helpers = {}
+    for f in prog.fns.values():
+        if f.path in sites or f.kind == "Closure":
+            continue
+        calls = [(bb, t) for bb, t in f.calls() if (t.get("callee") or "") in (SET_OPT, SET_FE)]
+        if not calls or "HasCompilerOptsDelegation" in f.path or f.root.startswith("compiler::"):
+            continue
+        sym = Sym(f, set())
+        hx = {}
+        for bb, t in calls:
+            name = "optimize" if t["callee"] == SET_OPT else "frontend_opt"
+            hx.setdefault(name, []).append((bb, sym.operand(t["args"][1]), False))
+        if any(flag_leaves(e) for lst in hx.values() for _, e, _ in lst):
+            helpers[f.path] = hx
+
+    def substitute(e, binding):
+        if e[0] == "leaf" and e[1] == "FLAG" and e[2] in binding:
+            return binding[e[2]]
+        if e[0] in ("const", "leaf"):
+            return e
+        return (e[0],) + tuple(substitute(x, binding) if isinstance(x, tuple) else x for x in e[1:])
+
+    for hpath, hx in helpers.items():
+        for c, bb, t in prog.call_sites(lambda c: c == hpath):
+            fl = Flow(c)
+            steps, det = step_locals_of(c, fl)
+            if not det:
+                continue
+            csym = Sym(c, steps)
+            binding = {"param:%d" % (i + 1): csym.operand(a) for i, a in enumerate(t["args"])}
+            exprs = {k: [(bb, substitute(e, binding), False) for _, e, _ in lst] for k, lst in hx.items()}
+            ent = sites.setdefault(c.path, {"fn": c, "flow": fl, "exprs": {}, "steps": steps})
+            for k, lst in exprs.items():
+                # the helper call overrides earlier direct setters on the same path (last setter wins)
+                prior = [(b0, e0, True) for b0, e0, _ in ent["exprs"].get(k, [])]
+                ent["exprs"][k] = prior + lst
+            ent["via_helper"] = hpath
+
     feeding = {}
     info_only = {}
     for path, st in sites.items():
